@@ -13,12 +13,19 @@ def run(ctx):
     ctx.lean_obligations(["SV.Props.C09"], drivers=["svdriver_c09"])
     quick = ctx.tier == "quick"
     b = ctx.go_test_binary("snapshot", "h_snapshot", only=["c08", "c09"])
+    extra = {"kernel_mount_stream_ran": False}
     if b:
-        ctx.correspond(b, "TestVerifC09", "svdriver_c09", "c09",
-                       env=_env({"VERIF_N": 60 if quick else 1500,
-                                 "VERIF_IMG_PERMILLE": 120 if quick else 150}),
-                       timeout=1500 if quick else 3300)
+        rep = ctx.correspond(b, "TestVerifC09", "svdriver_c09", "c09",
+                             env=_env({"VERIF_N": 60 if quick else 1500,
+                                       "VERIF_IMG_PERMILLE": 120 if quick else 150}),
+                             timeout=1500 if quick else 3300)
+        st = (rep or {}).get("stats") or {}
+        extra = {"kernel_mount_stream_ran": bool(st.get("kmount/stream-ran")),
+                 "kernel_mount_experiments": int(st.get("kmount/experiments", 0))}
+        if not extra["kernel_mount_stream_ran"]:
+            ctx.notes.append("leftover-kernel-mount stream skipped (needs root with CAP_SYS_ADMIN)")
     return ctx.finish(
+        extra=extra,
         level="proof",
         rule="histories of the C08 generator run with the crash-point hook armed: the root directory is copied when "
              "a marker fires (every firing in the 4 scripted scenarios, a seeded sample in the random histories; 13 "
@@ -27,12 +34,19 @@ def run(ctx):
              "failure patterns none/some/all), optionally a Prepare before the cleanup, then Cleanup, Mounts of every "
              "active/view snapshot, removal of everything; all of it is compared impl-vs-model (the model replays "
              "the same call prefix) and the C09 clauses are evaluated on the implementation; an image experiment is "
-             "distinct by (marker, settings, failure pattern, #snapshots, #backend calls)",
+             "distinct by (marker, settings, failure pattern, #snapshots, #backend calls).  Leftover kernel mounts "
+             "(as root): on ~60% of the restoring starts real bind mounts of a scratch directory are planted on the "
+             "image before the start - on the fs directory of committed remote snapshots, of the unlabelled active "
+             "snapshot of the Prepare in flight, of orphan/uncommitted ids and of temporaries; oracle: no mountpoint "
+             "is left below <image>/snapshots after the start, everything stays removable, and the content behind "
+             "the planted mount survives (RemoveAll must not descend through a stale mount)",
         assumptions=[
             "a crash exposes a prefix of the atomic steps of the call in flight: mkdir/rename/RemoveAll are atomic and "
             "bolt transactions are all-or-nothing (the image holds the last committed transaction: bolt writes pages "
             "only inside Tx.Commit and no marker sits inside a Commit; observed on the images)",
-            "no kernel mounts are left over from the dead process (the force-unmount loop of restore sees none)",
+            "leftover kernel mounts of the dead process are outside the Lean model (it has no kernel mount table); the "
+            "force-unmount loop of restore is exercised on the implementation only (bind mounts planted on the "
+            "crash images, root only)",
             "sequential semantics: one call in flight at the crash",
             "NoRestore on a dead backend leaves remote snapshots unmounted by design; for those starts only "
             "'restore is the identity' and 'cleanup leaves nothing but live snapshots' are claimed",
